@@ -503,6 +503,6 @@ VARIANTS = [
      "            # If the characteristic supports subscriptions, add a CCCD descriptor\n            # unless there is one already\n",
      "            characteristic.end_group_handle = self.attributes[-1].handle\n            # If the characteristic supports subscriptions, add a CCCD descriptor\n            # unless there is one already\n", 'fire', 'C12.group-ends'),
     ('subscriptions survive the bearer', 'bumble/gatt_server.py', "        self.subscribers.pop(bearer, None)\n", "", 'fire', 'C12.subscriber-lifetime'),
-    ('benign: tables dropped in a loop', 'bumble/gatt_server.py', "        self.subscribers.pop(bearer, None)\n        self.indication_semaphores.pop(bearer, None)\n        self.pending_confirmations.pop(bearer, None)\n", "        for table in (self.subscribers, self.indication_semaphores, self.pending_confirmations):\n            table.pop(bearer, None)\n", 'silent', ''),
+    ('benign: tables dropped in a loop', 'bumble/gatt_server.py', "        self.subscribers.pop(bearer, None)\n        self.indication_semaphores.pop(bearer, None)\n", "        for table in (self.subscribers, self.indication_semaphores):\n            table.pop(bearer, None)\n", 'silent', ''),
     ('filtered declarations do not close the previous group', 'bumble/gatt_client.py', "                    characteristic_uuid = UUID.from_bytes(attribute_value[3:])\n", "                    characteristic_uuid = UUID.from_bytes(attribute_value[3:])\n                    if uuids and characteristic_uuid not in uuids:\n                        continue\n", 'fire', 'C12.client-group-ends'),
 ]
